@@ -392,7 +392,7 @@ func (r *mapRun) exec(op absOp) {
 				defer gmu.Unlock()
 				if grng.Intn(2) == 0 {
 					atomic.AddInt32(&injected, 1)
-					return errInjected
+					return injectedErr(name)
 				}
 				return nil
 			}
